@@ -53,7 +53,7 @@ from props.c04 import C, Q, R, to_real
 
 LEVEL = "model_checking"
 RULE = ("explicit-state BFS over controller histories (events init/stop/qalloc/qfree/gate/classical-write/recv_epr/"
-        "keep-response/retry for every agent = (controller, app id) of the configuration, every unit-module size of the "
+        "keep-response/early keep-response (before its recv_epr has run)/retry for every agent = (controller, app id) of the configuration, every unit-module size of the "
         "configuration, every virtual id), level-synchronous, canonical state = per-app registers, arrays, shared memory "
         "(executor's and SharedMemoryManager's view), unit modules, used-physical set, request queues, ordered pending "
         "responses, in-flight subroutines with their program counters (subroutine/message ids and leftovers of faulted "
@@ -86,13 +86,13 @@ SOFT = ("stop-leaves/SharedMemoryManager",)
 
 
 # ----------------------------------------------------------------------------- configurations
-def _cfg(name, nodes, agents, sizes, classical, tidy, depth, max_states):
+def _cfg(name, nodes, agents, sizes, classical, tidy, depth, max_states, early=False):
     """tidy=False: event programs exactly as listed above, every stale scratch value stays in the (verbatim) state.
     tidy=True: the same programs followed by a normalisation of their own scratch (a second subroutine `set Q0 0` after
     qalloc/qfree/gate; the recv_epr subroutine ends with `set R4 0; array R3 @0; array R3 @1; ret_arr @1`, R3 = 0), so that
     the *real* state after an event does not remember v / the physical id: the hash stays exact and the graph closes."""
     return {"name": name, "nodes": nodes, "agents": agents, "sizes": sizes, "classical": classical, "tidy": tidy,
-            "depth": depth, "max_states": max_states}
+            "depth": depth, "max_states": max_states, "early": early}
 
 
 A2 = [[0, 0], [0, 1]]
@@ -106,6 +106,7 @@ CONFIGS: Dict[str, List[Dict[str, Any]]] = {
         _cfg("q/1node-2apps-sizes-1-1-closed", 1, A2, [[1], [1]], "none", True, CLOSE, 300000),
         _cfg("q/2nodes-same-app-id", 2, [[0, 0], [1, 0]], [[1, 2], [2]], "coarse", True, 6, 300000),
         _cfg("q/1node-3apps-tidy", 1, A3, [[1], [2], [1]], "none", True, 5, 300000),
+        _cfg("q/1node-2apps-early-responses", 1, A2, [[2], [1]], "none", True, 6, 300000, early=True),
     ],
     "thorough": [
         _cfg("t/1node-2apps-verbatim-fine", 1, A2, [[1, 2], [1, 2]], "fine", False, 6, 600000),
@@ -116,6 +117,8 @@ CONFIGS: Dict[str, List[Dict[str, Any]]] = {
         _cfg("t/1node-2apps-tidy", 1, A2, [[1, 2], [1, 2]], "none", True, 9, 600000),
         _cfg("t/1node-3apps-tidy", 1, A3, [[1, 3], [2], [1, 4]], "none", True, 6, 600000),
         _cfg("t/2nodes-3agents", 2, [[0, 0], [0, 1], [1, 0]], [[1, 2], [3], [1, 2]], "coarse", True, 6, 600000),
+        _cfg("t/1node-2apps-early-responses-closed", 1, A2, [[2], [1]], "none", True, CLOSE, 600000, early=True),
+        _cfg("t/1node-2apps-early-responses", 1, A2, [[1, 2], [1, 2]], "none", True, 8, 600000, early=True),
     ],
 }
 
@@ -184,7 +187,7 @@ assert prog_recv(0, 1, 0)[RECV_WAIT_LINE][0] == "wait_all"
 
 # ----------------------------------------------------------------------------- reference model (implementation-blind)
 def new_agent_model() -> Dict[str, Any]:
-    return {"reg": False, "m": 0, "alloc": [], "r0": False, "arr": False, "inflight": None, "delivered": False}
+    return {"reg": False, "m": 0, "alloc": [], "r0": False, "arr": False, "inflight": None, "delivered": False, "early": False}
 
 
 def model_enabled(cfg, model) -> List[list]:
@@ -194,7 +197,7 @@ def model_enabled(cfg, model) -> List[list]:
             evs.append(["init", g, m])
         if not ag["reg"]:
             continue
-        if ag["inflight"] is None:
+        if ag["inflight"] is None and not ag["early"]:
             evs.append(["stop", g])
         for v in range(ag["m"]):
             evs.append(["qalloc", g, v])
@@ -207,8 +210,11 @@ def model_enabled(cfg, model) -> List[list]:
                 evs.append(["recv", g, v])
         elif not ag["delivered"]:
             evs.append(["resp", g])
+        if cfg.get("early") and ag["inflight"] is None and not ag["early"]:
+            # the remote node created the pair before this node's recv_epr has run: the keep-response arrives first
+            evs.append(["early", g])
     for c in range(cfg["nodes"]):
-        if any(ag["delivered"] for g, ag in enumerate(model) if cfg["agents"][g][0] == c):
+        if any(ag["delivered"] or ag["early"] for g, ag in enumerate(model) if cfg["agents"][g][0] == c):
             evs.append(["retry", c])
     return evs
 
@@ -282,8 +288,19 @@ def model_step(cfg, model, ev) -> Dict[str, Any]:
                 exp.update(outcome="fault", line=3)
         return exp
     if kind == "recv":
-        ag["inflight"], ag["delivered"] = ev[2], False
+        # a response that arrived early now has its request; it stays queued until the queue is looked at again
+        ag["inflight"], ag["delivered"], ag["early"] = ev[2], ag["early"], False
         exp["outcome"] = "suspended"
+        return exp
+    if kind == "early":
+        ag["early"] = True
+        exp["deferred"] = True
+        # the executor re-examines its whole queue on every delivery
+        for h in _deferred_ready(cfg, model, cfg["agents"][g][0]):
+            mh = model[h]
+            mh["alloc"] = sorted(mh["alloc"] + [mh["inflight"]])
+            mh["inflight"], mh["delivered"] = None, False
+            exp["handled"].append(h)
         return exp
     if kind == "resp":
         c = cfg["agents"][g][0]
@@ -451,7 +468,7 @@ class World:
         elif kind == "recv":
             obs["prog"] = prog_recv(ev[2], 1 - c, a, cfg["tidy"])
             obs["st"] = self.subroutine(g, obs["prog"])
-        elif kind == "resp":
+        elif kind in ("resp", "early"):
             ex = self.ctls[c].executor
             resp = self.response_for(g)
             obs["response"] = list(resp[1:-1])
@@ -595,6 +612,9 @@ def global_invariants(w: World, snap) -> List[Tuple[str, str, Any]]:
         if mapped - used:
             out.append(("mapped-not-used", f"mapped physical qubit(s) not marked in use on {NODES[ci]}",
                         {"mapped": sorted(mapped), "used": sorted(used)}))
+        if mapped & queued:
+            out.append(("queued-response-qubit-handed-out", f"a physical qubit that holds the pair of a still queued keep-response is "
+                        f"mapped by a virtual qubit on {NODES[ci]}", {"mapped": sorted(mapped), "queued_responses": sorted(queued)}))
         if used - mapped - queued:
             out.append(("used-not-mapped", f"physical qubit(s) marked in use but mapped by no virtual qubit on {NODES[ci]}",
                         {"mapped": sorted(mapped), "used": sorted(used), "queued_responses": sorted(queued)}))
@@ -660,7 +680,7 @@ def check_transition(cfg, history, ev, part, before=None) -> Tuple[Optional[str]
     for cls, text, detail in global_invariants(w, after):
         if cls == "shared":
             # a response that had been queued (deferred) is consumed by this event
-            deferred_involved = (kind == "retry" and exp["handled"]) or (kind == "resp" and any(g != ev[1] for g in exp["handled"]))
+            deferred_involved = (kind == "retry" and exp["handled"]) or (kind in ("resp", "early") and any(g != ev[1] for g in exp["handled"]))
             fp = "physical-qubit-shared/" + ("deferred-keep-response" if deferred_involved else kind)
         else:
             fp = f"{cls}/{kind}"
@@ -714,6 +734,8 @@ def check_transition(cfg, history, ev, part, before=None) -> Tuple[Optional[str]
             count(part, "resp/also-consumes-queued")
     if kind == "retry":
         count(part, "retry/consumes" if exp["handled"] else "retry/nothing-ready")
+        if exp["handled"] and any(e[0] == "early" and e[1] in exp["handled"] for e in history):
+            count(part, "retry/consumes-early-response")
 
     # ---- allocation and queue state against the model -----------------------------------------------------------------
     if kind != "init" or exp["outcome"] != "reject-or-harmless":
@@ -727,10 +749,10 @@ def check_transition(cfg, history, ev, part, before=None) -> Tuple[Optional[str]
                 viol.append((f"allocation/{kind}", "allocated virtual qubits differ from the history's allocations and frees",
                              {"agent": agents[g], "unit_module": um, "expected_allocated": want_alloc, "expected_size": ag["m"]}))
             n_pending = sum(1 for r in after["ctl"][c]["pending"] if r[5] == a)
-            if n_pending != (1 if ag["delivered"] else 0) or ((g in w.live) != (ag["inflight"] is not None)):
+            if n_pending != (1 if (ag["delivered"] or ag["early"]) else 0) or ((g in w.live) != (ag["inflight"] is not None)):
                 viol.append((f"request-state/{kind}", "queued responses / in-flight subroutine differ from the history",
                              {"agent": agents[g], "pending": after["ctl"][c]["pending"], "in_flight": g in w.live,
-                              "expected": {"queued": ag["delivered"], "in_flight": ag["inflight"] is not None}}))
+                              "expected": {"queued": ag["delivered"] or ag["early"], "in_flight": ag["inflight"] is not None}}))
 
     # ---- lifecycle ------------------------------------------------------------------------------------------------------
     if kind == "stop":
@@ -897,8 +919,9 @@ def run(ctx):
     add_sample(s, {"config": CONFIGS[ctx.tier][0]["name"],
                    "history": [["init", 0, 2], ["qalloc", 0, 0], ["recv", 0, 0], ["resp", 0], ["qfree", 0, 0], ["retry", 0]]})
     ctx.merge(s)
-    for kind in ("init", "stop", "qalloc", "qfree", "gate", "cw", "recv", "resp", "retry"):
+    for kind in ("init", "stop", "qalloc", "qfree", "gate", "cw", "recv", "resp", "retry", "early"):
         ctx.require(f"event/{kind}", 1)
+    ctx.require("retry/consumes-early-response", 1)
     for name in ("outcome/qalloc/done", "outcome/qalloc/fault", "outcome/qfree/done", "outcome/qfree/fault",
                  "outcome/gate/done", "outcome/gate/fault", "outcome/cw/done", "outcome/cw/fault", "outcome/recv/susp",
                  "resp/deferred", "resp/handled-at-once", "retry/consumes", "resume/done", "stop/with-qubits",
